@@ -236,6 +236,25 @@ impl Job {
     }
 }
 
+/// Class of a panic: the panic site, and whether an EMPTY range had been inserted earlier in the
+/// sequence (an empty leaf inside the tree is a distinct, narrower failure class than a panic on
+/// non-empty ranges only).
+fn panic_kind(p: &str, path: &[Ins]) -> String {
+    let empty_before = path[..path.len() - 1].iter().any(|i| i.s == i.e);
+    let empty_now = path.last().is_some_and(|i| i.s == i.e);
+    format!(
+        "panic:{}{}",
+        panic_class(p),
+        if empty_before {
+            ":after-an-empty-range-was-inserted"
+        } else if empty_now {
+            ":inserting-an-empty-range"
+        } else {
+            ""
+        }
+    )
+}
+
 /// kind -> (count, up to 3 (path, detail) examples)
 #[derive(Default)]
 struct Failures(std::collections::BTreeMap<String, (u64, Vec<(Vec<Ins>, String)>)>);
@@ -320,7 +339,8 @@ impl Hot<'_> {
                 Err(p) => {
                     self.nodes += 1;
                     self.panics += 1;
-                    self.failures.add(&format!("panic:{}", panic_class(&p)), &self.path[..depth + 1], || format!("{p}; model before the insertion = [{}]", m.describe().join(", ")));
+                    let kind = panic_kind(&p, &self.path[..depth + 1]);
+                    self.failures.add(&kind, &self.path[..depth + 1], || format!("{p}; model before the insertion = [{}]", m.describe().join(", ")));
                 }
                 Ok((t2, v)) => {
                     self.visit(&m2, &v, depth + 1);
@@ -517,7 +537,7 @@ fn run_random(r: &mut Reporter, args: &Args, n_seq: u64, cov_total: &mut Cover) 
             }) {
                 Err(p) => {
                     panics += 1;
-                    failures.add(&format!("panic:{}", panic_class(&p)), &path[..=k], || format!("{p}; model before the insertion = [{}] ({job})", before.describe().join(", ")));
+                    failures.add(&panic_kind(&p, &path[..=k]), &path[..=k], || format!("{p}; model before the insertion = [{}] ({job})", before.describe().join(", ")));
                     break;
                 }
                 Ok((t2, v)) => {
